@@ -102,7 +102,7 @@ TEMPLATES = [
 ]
 # Fixed probes that decide the clause for a guilty payload kind: the first is
 # inert inside a quoted attribute value, the second inert in a text position.
-PROBES = ['{t}<zq17 zq17="1">', '{t}" zq17="1']
+PROBES = ['{t}<zq17 zq17=1>', '{t}" zq17="1']
 KEY_TEMPLATES = [t for t in TEMPLATES if t[2]]
 # repr() of a non-symbolic leaf: multi-line reprs may be re-indented by the
 # formatter (layout, not escaping), so no newline there.
@@ -466,7 +466,9 @@ def gen_opts(rng, S, desc, gen):
                           ('enable_key_tooltip', [True, False])]:
       if rng.random() < 0.4:
         cfg[name] = rng.choice(choices)
-    target = rng.choice(root_keys + [['plain', '__default__']])
+    # `child_config: Dict[str, Any]`: only str-keyed children are addressed.
+    target = rng.choice([k for k in root_keys if k[0] != 'idx']
+                        + [['plain', '__default__']])
     o['child_config'] = [target, cfg]
   if rng.random() < p:
     o['name'] = rng.choice([['plain', 'nm'],
